@@ -207,6 +207,52 @@ def judge(ck, flex, scratch, cases, results, stats):
                      no_input=kind in ('harness-error', 'driver-error'))
 
 
+SECT3_SPEC = r"""%%option noyywrap nounput noinput%s
+%%{
+#include <stdio.h>
+static void cut_(int n);
+%%}
+%%%%
+abc      { printf("<%%s:%%d>", yytext, (int) yyleng); cut_(1); printf("[%%s:%%d]", yytext, (int) yyleng); }
+[a-z]+   { printf("(%%s)", yytext); }
+.|\n     { }
+%%%%
+static void cut_(int n) { yyless(n); }
+int main(void) { yy_scan_string("abc abcd"); yylex(); printf("|"); return 0; }
+"""
+
+
+def sect3_yyless_probe(ck, flex, scratch, stats):
+    """yyless called from a function of the user-code section (the skeleton redefines the macro for that section): the text given
+    back is scanned again.  With %array the redefined macro points the scanner into the yytext array - a known finding."""
+    import os
+    from common import run
+    import scanner
+    for arr in ("", " array"):
+        wd = scratch.sub("sect3" + arr.strip())
+        with open(os.path.join(wd, "s.l"), "w") as f:
+            f.write(SECT3_SPEC % arr)
+        rc, out, err = scanner.run_flex(flex, "s.l", "s.c", ["-8"], wd)
+        prob = None
+        if rc != 0:
+            prob = "flex fails: " + err.decode(errors="replace")[:200]
+        else:
+            rc, o, e = scanner.compile_c("s.c", "s.exe", wd)
+            if rc != 0:
+                prob = "does not compile: " + e.decode(errors="replace")[:200]
+            else:
+                rc, o, e = run([os.path.join(wd, "s.exe")], timeout=10)
+                want = b"<abc:3>[a:1](bc)(abcd)|"
+                if rc != 0 or o != want:
+                    prob = "expected %r, the scanner printed %r (rc %s)" % (want, o[:80], rc)
+        stats['sect3_yyless_probes'] = stats.get('sect3_yyless_probes', 0) + 1
+        if prob:
+            key = "yyless-in-user-code-section-with-array" if arr else "yyless-in-user-code-section"
+            ck.violation(key, "yyless() called from a function of the user-code section (%s yytext): %s" % ("%array" if arr else "%pointer", prob),
+                         {'spec': SECT3_SPEC % arr, 'flex_opts': ["-8"], 'input_hex': b"abc abcd".hex(),
+                          'how': "flex -8 -o s.c s.l; cc; ./s.exe (the input is compiled in)"})
+
+
 def build_all(rng, tier):
     return build_cases(rng, tier) + unput_cases(rng.fork("unput"), tier)
 
@@ -226,7 +272,7 @@ def main(tier):
             ["yyless / yymore after yyunput or yyinput in the same action are not generated (yytext is not defined then)",
              "every action gives back fewer bytes than its token has (termination)",
              "the buffer layout is modelled for the refill (coq/BufLayout.v) and for yyunput (coq/Unput.v) and tied by correspondence"],
-            worker=worker, post=lambda ck, flex, scratch, cases, results, stats: {k: stats.get(k, 0) for k in ['unput_grid_runs', 'unput_grid_overflows_agreed']})
+            worker=worker, post=lambda ck, flex, scratch, cases, results, stats: (sect3_yyless_probe(ck, flex, scratch, stats), {k: stats.get(k, 0) for k in ['unput_grid_runs', 'unput_grid_overflows_agreed', 'sect3_yyless_probes']})[1])
     finally:
         engine.judge = orig
 
